@@ -209,8 +209,11 @@ namespace cnl {
     public:
         [[nodiscard]] constexpr auto operator()(Input const& from) const
         {
-            // TODO: unsigned specialization
-            return static_cast<result>(from + half());
+            // truncate, then step down where truncation rounded up
+            auto const truncated{static_cast<result>(from + half())};
+            return (static_cast<Input>(truncated) > from + half())
+                         ? _impl::from_rep<result>(static_cast<ResultRep>(_impl::to_rep(truncated) - 1))
+                         : truncated;
         }
     };
 
